@@ -214,6 +214,19 @@ class Utf8StreamLogger(TracepointLogger):
             raise
 
 
+class RecSpanSized(RecSpan):
+    """A span that has a length (the number of events added to it so far): empty, so falsy, when it is new."""
+
+    def __len__(self):
+        return 0
+
+
+class _SpanMixinSized(_SpanMixin):
+    def create_span(self, name, context_id, tracepoint_id):
+        idx = _rec(self.name, 'span_open', {'name': name, 'tp': tracepoint_id, 'ctx': context_id})
+        return RecSpanSized(self.name, name, context_id, tracepoint_id, idx)
+
+
 class _SpanMixinSampling(_SpanMixin):
     """A span processor that declines some spans (returns None for them), as a sampling tracer does."""
 
@@ -224,7 +237,7 @@ class _SpanMixinSampling(_SpanMixin):
         return super().create_span(name, context_id, tracepoint_id)
 
 
-_KINDS = {'met_adds_label': _MetMixinAddsLabel, 'res': _ResMixin, 'dec': _DecMixin, 'log': _LogMixin, 'logp': _LogMixinOwnNames, 'met': _MetMixin, 'span': _SpanMixin, 'span_sampling': _SpanMixinSampling}
+_KINDS = {'span_sized': _SpanMixinSized, 'met_adds_label': _MetMixinAddsLabel, 'res': _ResMixin, 'dec': _DecMixin, 'log': _LogMixin, 'logp': _LogMixinOwnNames, 'met': _MetMixin, 'span': _SpanMixin, 'span_sampling': _SpanMixinSampling}
 
 
 def make(name, kinds, order=0, attrs=None, fail_ctor=False, falsy=None, display_name=None, deregister=False):
